@@ -29,6 +29,8 @@
 #include "upipe/ubuf.h"
 #include "upipe/ubuf_block.h"
 #include "upipe/ubuf_block_mem.h"
+#include "upipe/ubuf_pic.h"
+#include "upipe/ubuf_pic_mem.h"
 
 #include <stdio.h>
 #include <stdlib.h>
@@ -45,11 +47,11 @@ enum { OP_FREE = 0, OP_DUP = 1, OP_READ = 2 };
 static const char *const op_name[] = { "free", "dup", "read" };
 
 enum { CL_FREE_OVERLAP, CL_DUP_FREE_OVERLAP, CL_LAST_TWO_DIFFERENT, CL_3THREADS, CL_SWITCH_IN_OP, CL_POOL0, CL_POOLN,
-       CL_POL_TAPE, CL_POL_PCT, CL_POL_PREFIX, CL_DUP_DONE, CL_READ_DONE, CL_PREEMPT, CL_CAS_RETRY, CL_FAILED_ALLOC, CL_FAILED_STRUCT };
+       CL_POL_TAPE, CL_POL_PCT, CL_POL_PREFIX, CL_DUP_DONE, CL_READ_DONE, CL_PREEMPT, CL_CAS_RETRY, CL_FAILED_ALLOC, CL_FAILED_STRUCT, CL_CROSS_MGR };
 static const char *const class_names[] = {
     "two_frees_in_flight_together", "dup_in_flight_with_free", "last_two_decrements_by_different_threads", "three_threads",
     "context_switch_inside_operation", "pool_depth_0", "pool_depth_positive", "policy_tape", "policy_pct", "policy_prefix",
-    "dup_executed", "read_executed", "preempted", "pool_cas_retry", "allocation_failures_before_the_area", "structure_allocation_refused_before_the_area", NULL };
+    "dup_executed", "read_executed", "preempted", "pool_cas_retry", "allocation_failures_before_the_area", "structure_allocation_refused_before_the_area", "block_from_picture_plane_outlives_the_picture_manager", NULL };
 
 struct prog {
     int nthreads;
@@ -58,6 +60,8 @@ struct prog {
     int nops[MAXT];
     uint8_t ops[MAXT][MAXOPS];
     int failed_allocs;          /* allocations that fail (umem exhausted) before the shared area is made: 0-2 (last: the templates use positional initialisers) */
+    int cross_mgr;              /* before the race: a block made from the plane of a picture outlives the picture and the creator's reference
+                                 * on the picture manager -- the manager must live until that block is freed */
     int failed_struct;          /* a refused allocation of a buffer STRUCTURE before the shared area is made (engine/faultmalloc.h):
                                  * 1 = in ubuf_block_alloc, 2 = for the second segment while a two-segment block is duplicated */
 };
@@ -254,6 +258,27 @@ static int run_case(const struct prog *prog, struct vs_config *cfg, struct vp_re
         if (f != NULL) { ubuf_free(f); }    /* (the failure was not reached: nothing to say) */
         rep->classes |= 1u << CL_FAILED_ALLOC;
     }
+    if (inner && cx.mgr && p->cross_mgr) {
+        cx.prelude = true;
+        struct ubuf_mgr *pm = ubuf_pic_mem_mgr_alloc(p->ubuf_pool, p->shared_pool, &cx.w.mgr, 1, 0, 0, 0, 0, 0, 0);
+        if (pm != NULL && ubase_check(ubuf_pic_mem_mgr_add_plane(pm, "y8", 1, 1, 1))) {
+            struct ubuf *pic = ubuf_pic_alloc(pm, 16, 4);
+            struct ubuf *blk = pic ? ubuf_block_mem_alloc_from_pic(cx.mgr, pic, "y8") : NULL;
+            if (pic) ubuf_free(pic);
+            ubuf_mgr_release(pm); pm = NULL;        /* the creator lets go: the block's area descriptor keeps the manager alive */
+            if (blk) { uint8_t tmp; ubuf_block_extract(blk, 0, 1, &tmp); ubuf_free(blk); }
+            rep->classes |= 1u << CL_CROSS_MGR;
+        }
+        if (pm) ubuf_mgr_release(pm);
+        cx.prelude = false;
+        struct umem_count_stats *ps = umem_count_stats(inner);
+        if (cx.prelude_frees != cx.prelude_allocs || ps->bad_free || ps->live) {
+            __lsan_enable(); vs_end();
+            return vp_fail(rep, "C09/area/cross-manager", "a block made from the plane of a picture was freed after the picture and after the creator's reference on the picture manager: %d area(s) allocated, %d returned (%lu unknown frees, %ld still allocated)",
+                           cx.prelude_allocs, cx.prelude_frees, ps->bad_free, ps->live);
+        }
+        cx.prelude_allocs = cx.prelude_frees = 0;
+    }
 #ifdef VP_FAULTMALLOC_H
     cx.prelude = true;
     /* the same for a refused allocation of a structure: whatever the failed call had taken (a reference on the manager, on a
@@ -381,6 +406,7 @@ static void decode_prog(struct tape *t, struct prog *p)
     uint8_t b0 = tp_u8(t);
     p->nthreads = 2 + b0 % 2;
     p->failed_allocs = (b0 >> 1) % 4 == 3 ? 1 + ((b0 >> 3) & 1) : 0;
+    p->cross_mgr = ((b0 >> 1) % 4 == 1 && (b0 & 0x10)) ? 1 : 0;
     p->failed_struct = ((b0 >> 1) % 4 == 2 && (b0 & 0x10)) ? 1 + ((b0 >> 3) & 1) + 2 * ((b0 >> 5) & 1) : 0;      /* 1..4 */
     uint8_t pc = tp_u8(t) % 5;
     p->ubuf_pool = pool_cfg[pc][0];
